@@ -370,7 +370,13 @@ def process_lines(args):
                 except Exception as e:  # noqa: BLE001
                     res["nviol"] += 1
                     res["viol"].append({"kind": "generate-raised", "grammar": gtext, "detail": {"mode": mode, "error": f"{type(e).__name__}: {e}"[:300]}})
+        t0 = M.TIMEOUTS
         for cps, k, expected in rec["cases"]:
+            if M.TIMEOUTS - t0 >= 3 or M.TIMEOUTS >= 60:
+                # a parser that hangs (each hang is a reported violation and costs the watchdog's 5 s): its remaining cases,
+                # and after 60 hangs in this worker everything else, are skipped and counted
+                res["skipped_after_hangs"] = res.get("skipped_after_hangs", 0) + 1
+                continue
             text = text_of(cps)
             res["cases"] += 1
             if expected != 0:
@@ -456,6 +462,8 @@ def run_family(rep: C.Report, fam: dict, judge: str, modes, build_modes=None, np
         kinds.update(r["kinds"])
         okfail.update(r["okfail"])
         build_fail += r["build_fail"][:2]
+        if r.get("skipped_after_hangs"):
+            rep.extra["cases_skipped_after_hangs"] = rep.extra.get("cases_skipped_after_hangs", 0) + r["skipped_after_hangs"]
         if r["sample"]:
             rep.sample(r["sample"])
         for v in r["viol"]:
